@@ -28,6 +28,11 @@ sys.path.insert(0, VERIF)
 REPO = "/repo"
 
 SKIP_FUNCS = {"__repr__", "draw", "ordinal", "_validate_loguru_level", "__hash__", "get_call_location"}
+EXTRA = False
+ATTR_SWAP = {"args": "kwargs", "kwargs": "args", "successors": "predecessors", "predecessors": "successors", "setup": "debug", "debug": "setup",
+             "in_degree": "out_degree", "root_nodes": "leaf_nodes", "leaf_nodes": "root_nodes", "input_uxns": "return_uxns",
+             "target_nodes": "exclude_nodes", "exclude_nodes": "root_nodes", "conc_running": "async_running", "issubset": "issuperset",
+             "append": "remove", "union": "intersection", "values": "keys"}
 CMP_SHIFT = {ast.Lt: ast.LtE, ast.LtE: ast.Lt, ast.Gt: ast.GtE, ast.GtE: ast.Gt, ast.Eq: ast.NotEq, ast.NotEq: ast.Eq,
              ast.Is: ast.IsNot, ast.IsNot: ast.Is, ast.In: ast.NotIn, ast.NotIn: ast.In}
 
@@ -130,6 +135,58 @@ def enumerate_mutants(rel: str, src: str):
                 n.op = ast.Or() if isinstance(saved, ast.And) else ast.And()
                 add("boolop-swap", fname, n, tree)
                 n.op = saved
+            if EXTRA:
+                # constants: ints +-1, booleans flipped
+                if isinstance(n, ast.Constant) and isinstance(n.value, bool):
+                    saved = n.value
+                    n.value = not saved
+                    add("bool-flip", fname, n, tree)
+                    n.value = saved
+                elif isinstance(n, ast.Constant) and isinstance(n.value, int):
+                    saved = n.value
+                    n.value = saved + 1
+                    add("int+1", fname, n, tree)
+                    n.value = saved
+                # copies dropped
+                if isinstance(n, ast.Call) and ast.unparse(n.func) in ("copy", "deepcopy") and len(n.args) == 1:
+                    saved_f, saved_a = n.func, n.args
+                    n.func, n.args = ast.Name(id="_twz_identity", ctx=ast.Load()), saved_a
+                    # unparse as identity call is not valid without a definition: substitute textually instead
+                    n.func, n.args = saved_f, saved_a
+                    text = ast.unparse(tree)
+                    target = ast.unparse(n)
+                    if text.count(target) == 1:
+                        mtext = text.replace(target, ast.unparse(n.args[0])) + "\n"
+                        try:
+                            ast.parse(mtext)
+                            out.append({"file": rel, "func": fname, "kind": "copy-drop", "line": n.lineno, "what": target[:100], "source": mtext})
+                        except SyntaxError:
+                            pass
+                # attribute swaps
+                if isinstance(n, ast.Attribute) and n.attr in ATTR_SWAP:
+                    saved = n.attr
+                    n.attr = ATTR_SWAP[saved]
+                    add("attr-swap", fname, n, tree)
+                    n.attr = saved
+                # keyword argument dropped
+                if isinstance(n, ast.Call) and n.keywords and not any(k.arg is None for k in n.keywords):
+                    for j in range(len(n.keywords)):
+                        saved = list(n.keywords)
+                        del n.keywords[j]
+                        add("kwarg-drop", fname, n, tree)
+                        n.keywords = saved
+                # second positional argument dropped (e.g. the key path of a reference)
+                if isinstance(n, ast.Call) and len(n.args) == 2 and ast.unparse(n.func).endswith("UsageExecNode"):
+                    saved = list(n.args)
+                    n.args = saved[:1]
+                    add("arg2-drop", fname, n, tree)
+                    n.args = saved
+                # return value dropped
+                if isinstance(n, ast.Return) and n.value is not None and not isinstance(n.value, ast.Constant):
+                    saved = n.value
+                    n.value = ast.Constant(value=None)
+                    add("return-none", fname, n, tree)
+                    n.value = saved
     return out
 
 
@@ -187,7 +244,10 @@ def main():
     ap.add_argument("--limit", type=int, default=0)
     ap.add_argument("--out", default="/tmp/mutation_survey.json")
     ap.add_argument("--no-suite", action="store_true")
+    ap.add_argument("--extra", action="store_true", help="second-generation operators only (constants, copies, attribute swaps, dropped arguments, dropped return values)")
     a = ap.parse_args()
+    global EXTRA
+    EXTRA = a.extra
     muts = []
     for dp, dn, fn in os.walk(os.path.join(REPO, "tawazi")):
         for f in sorted(fn):
@@ -196,6 +256,8 @@ def main():
                 if a.only and a.only not in rel:
                     continue
                 muts += enumerate_mutants(rel, open(os.path.join(REPO, rel)).read())
+    if a.extra:
+        muts = [m for m in muts if m["kind"] in ("bool-flip", "int+1", "copy-drop", "attr-swap", "kwarg-drop", "arg2-drop", "return-none")]
     if a.limit:
         muts = muts[: a.limit]
     print(f"{len(muts)} mutants", flush=True)
